@@ -343,9 +343,157 @@ def design_worker(case):
         return {"id": case["id"], "infra": traceback.format_exc()[-1500:]}
 
 
+# --------------------------------------------------------------------------------------- call histories on one manager
+_LOT = [[0.0, 0.0], [25.0, 0.0], [25.0, 20.0], [0.0, 20.0]]
+_NOGO = [[[10.0, 8.0], [14.0, 8.0], [14.0, 12.0], [10.0, 12.0]]]
+HIST_GEOMS = {   # small lots: a find_design costs 3-18 s with 12 months of small loads
+    "NEARSQUARE": ("NEARSQUARE", 5.0, 20.0),
+    "RECTANGLE": ("RECTANGLE", 20.0, 15.0, 3.0, 7.0),
+    "BIRECTANGLE": ("BIRECTANGLE", 20.0, 15.0, 3.0, 7.0, 7.0),
+    "BIZONEDRECTANGLE": ("BIZONEDRECTANGLE", 25.0, 20.0, 3.0, 7.0, 7.0),
+    "BIRECTANGLECONSTRAINED": ("BIRECTANGLECONSTRAINED", 3.0, 7.0, 7.0, _LOT, _NOGO),
+    "ROWWISE": ("ROWWISE", 0.8, 7.0, 3.0, 1.0, 0.0, -math.pi / 2, math.pi / 4, _LOT, _NOGO),
+}
+GEOM_INDEX = {g: i for i, g in enumerate(HIST_GEOMS)}
+DESIGN_CLASS = {"NEARSQUARE": "DesignNearSquare", "RECTANGLE": "DesignRectangle", "BIRECTANGLE": "DesignBiRectangle",
+                "BIZONEDRECTANGLE": "DesignBiZoned", "BIRECTANGLECONSTRAINED": "DesignBiRectangleConstrained", "ROWWISE": "DesignRowWise"}
+FT_STR = {"B": ["borehole", "BOREHOLE", "Borehole"], "S": ["system", "SYSTEM", "System"], "X": ["", "bogus", "SYSTEMS", " system", "per-borehole"]}
+
+
+def bare_manager(case):
+    """A GHEManager with everything set except geometry constraints and design."""
+    from ghedesigner.manager import GHEManager
+    phys = _phys(case)
+    m = GHEManager()
+    m.set_fluid(phys["fluid"][0], phys["fluid"][1])
+    m.set_grout(*phys["grout"])
+    m.set_soil(*phys["soil"])
+    h, d, dia = phys["borehole"]
+    ghelib.set_pipe(m, case["pipe"], phys, dia)
+    m.set_borehole(h, d, dia)
+    m.set_simulation_parameters(case["months"], 35.0, 5.0, 135.0, 60.0, None, True)
+    m.set_ground_loads_from_hourly_list([x * case["load_scale"] for x in ghelib.atlanta_loads()])
+    return m
+
+
+def call_set_design(m, v, ftstr, throw):
+    try:
+        return str(m.set_design(v, ftstr, throw=throw))
+    except Exception as e:  # noqa: BLE001
+        return type(e).__name__ if type(e).__name__ in ERR_NAMES else "Exception"
+
+
+def design_state(m):
+    d = m._design
+    if d is None:
+        return None
+    return {"v": float(d.V_flow), "ft": getattr(d.flow_type, "name", str(d.flow_type)), "cls": type(d).__name__,
+            "to_input": {k: (float(x) if isinstance(x, (int, float)) else str(x)) for k, x in d.to_input().items()},
+            "same_constraints": d.geometric_constraints is m._geometric_constraints}
+
+
+def history_worker(case):
+    """One manager, several set_design calls (case['calls'] = [[v | None, 'B'|'S'|'X', string, throw], ...]; v None = N·v0 of the
+    first design), find_design after the first call when case['find_between'], find_design at the end; the same last
+    specification on a fresh manager; optionally both search objects evaluated on the first design's field."""
+    import warnings
+    warnings.simplefilter("ignore")
+    try:
+        import ghedesigner.ground_heat_exchangers as ghx
+        import ghedesigner.search_routines as sr
+        from ghedesigner.enums import TimestepType
+        from ghedesigner.ground_heat_exchangers import BaseGHE
+
+        rec, gcalls = [], []
+        orig = BaseGHE.__init__
+        real_g = ghx.calc_g_func_for_multiple_lengths
+
+        def wrapped(self, *a, **k):
+            orig(self, *a, **k)
+            rec.append((int(self.nbh), float(self.V_flow_system), float(self.bhe.m_flow_borehole), float(self.m_flow_borehole)))
+
+        def g_recorder(b, h_values, r_b, depth, m_flow_borehole, bhe_t, log_time, coordinates, *a, **k):
+            gcalls.append((len(coordinates), float(m_flow_borehole), len(h_values)))
+            return real_g(b, h_values, r_b, depth, m_flow_borehole, bhe_t, log_time, coordinates, *a, **k)
+
+        def find(m):
+            del rec[:], gcalls[:]
+            try:
+                m.find_design()
+            except Exception as e:  # noqa: BLE001
+                return {"raise": type(e).__name__, "msg": str(e)[:80], "ghes": list(rec), "gcalls": list(gcalls), "rho": float(m._fluid.rho)}
+            s, ghe = m._search, m._search.ghe
+            o = {"ghes": list(rec), "gcalls": list(gcalls), "rho": float(ghe.bhe.fluid.rho), "search": type(s).__name__,
+                 "search_v": float(s.V_flow), "search_ft": getattr(s.flow_type, "name", str(s.flow_type)),
+                 "n": int(ghe.nbh), "H": float(ghe.bhe.b.H), "coords": [[float(x), float(y)] for x, y in ghe.gFunction.bore_locations],
+                 "vsys": float(ghe.V_flow_system), "mbhe": float(ghe.bhe.m_flow_borehole), "rb": float(ghe.bhe.calc_effective_borehole_resistance())}
+            m.prepare_results("p", "n", "a", "i")
+            d = m.results.output_dict["ghe_system"]
+            o["summary_m"] = float(d["fluid_mass_flow_rate_per_borehole"]["value"])
+            o["summary_n"] = int(d["number_of_boreholes"])
+            o["summary_rb"] = float(d["effective_borehole_resistance"]["value"])
+            mx, mn = ghe.simulate(TimestepType.HYBRID)
+            o["max_eft"], o["min_eft"] = float(mx), float(mn)
+            return o
+
+        def excess_on(s, coords, h):
+            s.calculate_excess(coords, h, "c20-history")
+            tr = s.searchTracker[-1]
+            return {"mbhe": float(s.ghe.bhe.m_flow_borehole), "vsys": float(s.ghe.V_flow_system), "rb": float(s.ghe.bhe.calc_effective_borehole_resistance()),
+                    "max_eft": float(tr[2]), "min_eft": float(tr[3]), "nbh": int(s.ghe.nbh)}
+
+        out = {"id": case["id"], "results": [], "calls": []}
+        t = time.time()
+        BaseGHE.__init__ = wrapped
+        ghx.calc_g_func_for_multiple_lengths = g_recorder
+        sr.calc_g_func_for_multiple_lengths = g_recorder
+        try:
+            import contextlib
+            import io
+            with ghelib.quiet(), contextlib.redirect_stderr(io.StringIO()):
+                m = bare_manager(case)
+                ghelib.set_geometry(m, HIST_GEOMS[case["geom"]])
+                first, s1, v0 = None, None, None
+                for i, (v, ft, ftstr, throw) in enumerate(case["calls"]):
+                    if v is None:   # the equivalence form: N·v0 for the field the first design returned
+                        v = first["n"] * v0 if first and "n" in first else 1.0
+                    out["calls"].append([v, ft, ftstr, throw])
+                    out["results"].append(call_set_design(m, v, ftstr, throw))
+                    if i == 0:
+                        v0 = v
+                        out["design_after_first"] = design_state(m)
+                        if case["find_between"]:
+                            first = find(m)
+                            s1 = m._search
+                out["design"] = design_state(m)
+                out["first"] = first
+                last = find(m)
+                s2 = m._search
+                out["last"] = last
+                valid = [c for c in out["calls"] if c[1] in ("B", "S")]
+                lv, lft = valid[-1][0], valid[-1][1]
+                out["last_spec"] = [lv, lft]
+                fm = bare_manager(case)
+                ghelib.set_geometry(fm, HIST_GEOMS[case["geom"]])
+                fm.set_design(lv, FT_STR[lft][0])
+                out["fresh_design"] = design_state(fm)
+                out["fresh"] = find(fm)
+                if case.get("equiv") and first and "raise" not in first and "raise" not in last:
+                    coords = [tuple(c) for c in first["coords"]]
+                    out["equiv"] = {"n": len(coords), "h": 135.0, "first": excess_on(s1, coords, 135.0), "last": excess_on(s2, coords, 135.0)}
+        finally:
+            BaseGHE.__init__ = orig
+            ghx.calc_g_func_for_multiple_lengths = real_g
+            sr.calc_g_func_for_multiple_lengths = real_g
+        out["s"] = round(time.time() - t, 1)
+        return out
+    except Exception:  # noqa: BLE001
+        return {"id": case["id"], "infra": traceback.format_exc()[-1500:]}
+
+
 def any_worker(job):
     kind, case = job
-    return {"pipeline": pipeline_worker, "base": base_ghe_worker, "design": design_worker}[kind](case)
+    return {"pipeline": pipeline_worker, "base": base_ghe_worker, "design": design_worker, "history": history_worker}[kind](case)
 
 
 # --------------------------------------------------------------------------------------- generators
@@ -425,8 +573,7 @@ class Checker:
 
     def dev(self, name, a, b):
         d = abs(a - b) / max(abs(a), abs(b), 1e-300)
-        if d > self.maxdev.get(name, 0.0):
-            self.maxdev[name] = d
+        self.maxdev[name] = max(self.maxdev.get(name, 0.0), d)
 
     def disagree(self, stream, detail):
         ctx = self.ctx
@@ -485,6 +632,81 @@ class Checker:
         if st.get("same_fluid") is False or st.get("same_coords") is False:
             self.disagree(f"{where}-wiring", {"cls": cls, "impl": st})
 
+    def check_history(self, c, r):
+        """r: result of history_worker for case c.  Everything is judged against the LAST call that named a flow type."""
+        ctx = self.ctx
+        g, pat = c["geom"], c["pattern"]
+        key = f"history:{g}:{pat}"
+        replay = {"part": "history", "case": c, "impl": {k: v for k, v in r.items() if k not in ("first", "last", "fresh")},
+                  "last": {k: v for k, v in (r.get("last") or {}).items() if k not in ("ghes", "gcalls", "coords")},
+                  "fresh": {k: v for k, v in (r.get("fresh") or {}).items() if k not in ("ghes", "gcalls", "coords")}}
+        lv, lft = r["last_spec"]
+        hist = " -> ".join(f"set_design({v!r}, {fs!r})" for v, _, fs, _ in r["calls"])
+        # (i) the design object
+        d = r["design"]
+        want_ft = {"B": "BOREHOLE", "S": "SYSTEM"}[lft]
+        if d is None or d["ft"] != want_ft or d["v"] != lv or d["to_input"].get("flow_type") != want_ft or d["to_input"].get("flow_rate") != lv:
+            self.finding(key + ":design-flow-spec", f"{g}: after {hist} the design holds flow_type={d and d['ft']}, V_flow={d and d['v']!r} "
+                         f"(to_input {d and d['to_input']}); the last specification is {want_ft} {lv!r}", replay)
+        if d is not None and (d["cls"] != DESIGN_CLASS[g] or not d["same_constraints"]):
+            self.finding(key + ":design-object", f"{g}: after {hist} the design is a {d['cls']} (same constraints object: {d['same_constraints']})", replay)
+        for which, o, (v, ft) in (("first", r.get("first"), (r["calls"][0][0], r["calls"][0][1])), ("last", r["last"], (lv, lft))):
+            if o is None:
+                continue
+            if which == "first" and ft not in ("B", "S"):
+                continue
+            rho = o["rho"]
+            ctx.count("history:GHE objects observed", len(o["ghes"]))
+            if "raise" not in o:
+                w = oracle(ft, v, o["n"], rho)
+                # (iii) the summary
+                if not close(o["summary_m"], float(w["m"]), REL15) or o["summary_n"] != o["n"] or not close(o["mbhe"], float(w["m"]), REL15):
+                    self.finding(key + f":{which}:summary-mass-flow", f"{g}: after {hist} the summary reports fluid_mass_flow_rate_per_borehole={o['summary_m']!r} kg/s for "
+                                 f"{o['summary_n']} boreholes; specification {ft} {v!r} means {float(w['m'])!r}", replay)
+                if not close(o["summary_rb"], o["rb"], REL9):
+                    self.finding(key + f":{which}:summary-rb", f"{g}: summary effective_borehole_resistance {o['summary_rb']!r} vs design {o['rb']!r}", replay)
+            # (ii) every GHE the search built, every g-function calculation, the final GHE
+            for (n, vsys, mbhe, mghe) in o["ghes"]:
+                w = oracle(ft, v, n, rho)
+                if not (close(mbhe, float(w["m"]), REL15) and close(mghe, float(w["m"]), REL15) and close(vsys, float(w["vsys"]), REL15)):
+                    self.finding(key + f":{which}:ghe-flow", f"{g}: after {hist}, find_design built a GHE of {n} boreholes with V_flow_system={vsys!r}, "
+                                 f"bhe.m_flow_borehole={mbhe!r}; the {'last' if which == 'last' else 'first'} specification {ft} {v!r} means {float(w['vsys'])!r}, {float(w['m'])!r}", replay)
+                    break
+            for (n, mg, nh) in o["gcalls"]:
+                w = oracle(ft, v, n, rho)
+                if not close(mg, float(w["m"]), REL15):
+                    self.finding(key + f":{which}:g-function-flow", f"{g}: after {hist}, a g-function calculation for {n} boreholes was given m_flow_borehole={mg!r}; expected {float(w['m'])!r}", replay)
+                    break
+            if "raise" in o:
+                ctx.count(f"history:find_design raised {o['raise']}")
+                continue
+            if o["search_ft"] != {"B": "BOREHOLE", "S": "SYSTEM"}[ft] or o["search_v"] != v:
+                self.finding(key + f":{which}:search-flow-spec", f"{g}: after {hist} the search object holds {o['search_ft']} {o['search_v']!r}, expected {ft} {v!r}", replay)
+        # (iv) a fresh manager that only ever got the last specification
+        a, b = r["last"], r["fresh"]
+        if ("raise" in a) != ("raise" in b) or a.get("raise") != b.get("raise"):
+            self.finding(key + ":fresh-manager:outcome", f"{g}: after {hist} find_design -> {a.get('raise', 'a design')}; fresh manager with {lft} {lv!r} -> {b.get('raise', 'a design')}", replay)
+        elif "raise" not in a:
+            if a["n"] != b["n"] or a["coords"] != b["coords"]:
+                self.finding(key + ":fresh-manager:field", f"{g}: after {hist} the design has {a['n']} boreholes; a fresh manager given only {lft} {lv!r} selects {b['n']}"
+                             + ("" if a["n"] != b["n"] else " (different coordinates)"), replay)
+            else:
+                for k2, rel, fl in (("mbhe", REL15, 0.0), ("vsys", REL15, 0.0), ("rb", REL9, 0.0), ("H", REL9, 0.0), ("max_eft", REL9, 1.0), ("min_eft", REL9, 1.0)):
+                    self.dev("history-vs-fresh:" + k2, a[k2], b[k2])
+                    if not close(a[k2], b[k2], rel, fl):
+                        self.finding(key + f":fresh-manager:{k2}", f"{g}: after {hist}: {k2}={a[k2]!r}; fresh manager given only {lft} {lv!r}: {b[k2]!r} ({a['n']} boreholes)", replay)
+                ctx.count("history:designs equal to the fresh manager's (field, H, EFT compared)")
+        # the equivalence form on the re-used manager
+        e = r.get("equiv")
+        if e:
+            ctx.count("history:equivalence pairs on a re-used manager")
+            for k2, rel, fl in (("mbhe", REL15, 0.0), ("vsys", REL15, 0.0), ("rb", REL9, 0.0), ("max_eft", REL9, 1.0), ("min_eft", REL9, 1.0)):
+                self.dev("history B-vs-S:" + k2, e["first"][k2], e["last"][k2])
+                if not close(e["first"][k2], e["last"][k2], rel, fl):
+                    self.finding(key + f":equiv:{k2}", f"{g}: set_design({r['calls'][0][0]!r}, borehole) then set_design({lv!r}, system) on the same manager: on the {e['n']}-borehole field "
+                                 f"of the first design {k2} = {e['first'][k2]!r} under the first and {e['last'][k2]!r} under the second design", replay)
+
+
     def check_equiv(self, where, cls, pipe, a, b, n, replay):
         """a: state under BOREHOLE v, b: under SYSTEM v·N (both ok)."""
         ctx = self.ctx
@@ -513,7 +735,10 @@ def run(ctx: core.Ctx):
                 "fluids x concentrations, flow types BOREHOLE/SYSTEM/6 invalid values; (2) BaseGHE/GHE constructors on synthetic g-function tables; "
                 "(3) constructor + calculate_excess of each search class on members of real candidate lists and arbitrary N (real pygfunction "
                 "g-function or synthetic table), four pipe types, under BOREHOLE v, SYSTEM fl(v·N) and an unrelated SYSTEM flow; (4) SYSTEM flow along "
-                "whole real candidate lists; (5) whole find_design runs. distinct = distinct (class, flow type, v, N, rho[, pipe]); non-trivial = N >= 2 "
+                "whole real candidate lists; (5) whole find_design runs; (6) call histories on ONE GHEManager: 2-4 set_design calls (borehole->system, "
+                "system->borehole, same type/other value, refused strings in between) then find_design, judged against the LAST accepted call "
+                "(design object, every GHE and g-function calculation of the search, summary, equality with a fresh manager, and BOREHOLE v vs "
+                "SYSTEM N·v on the re-used manager), plus random set_design/geometry histories against the state-machine model. distinct = distinct (class, flow type, v, N, rho[, pipe]); non-trivial = N >= 2 "
                 "with a valid flow type (N = 1 makes the two specifications literally the same number; errors are branch checks)")
     ctx.trusted_base += [
         "translator translate/gen.py + translate/gen_flow.py (retrieve_flow copies, BaseGHE.__init__ flow slice, initialize_ghe wiring; regenerated every run)",
@@ -661,8 +886,71 @@ def run(ctx: core.Ctx):
                 ck.finding(f"inverse-N:{cls}:monotone", f"{cls}: SYSTEM flow along {lname}: N={ns[badm[0]]} -> m={ms[badm[0]]!r}, N={ns[badm[1]]} -> m={ms[badm[1]]!r} (not decreasing)",
                             {"part": "candidate-list", "list": lname, "cls": cls, "V": v_sys, "rho": rho, "pair": badm})
 
-    # =============================================================================== jobs for the pool: (2), (3), (5)
+    # =============================================================================== (6b) set_design as a state machine (no find_design)
+    import contextlib
+    import io
+    hist_lines, hist_impl = [], []
+    cls_index = {DESIGN_CLASS[g]: GEOM_INDEX[g] for g in HIST_GEOMS}
+    cheap = ["NEARSQUARE", "RECTANGLE", "BIRECTANGLE"]
+    base_case = {"phys": ghelib.default_physics(), "pipe": "SINGLEUTUBE", "months": 12, "load_scale": 0.05}
+    for j in range(0 if only not in (None, "set_design-history") else (120 if quick else 1500)):
+        with ghelib.quiet(), contextlib.redirect_stderr(io.StringIO()):
+            m = bare_manager(base_case)
+            items, results, geom, want, log = [], [], None, None, []
+            for _ in range(rng.randint(1, 7)):
+                if rng.random() < (0.7 if geom is None else 0.12):
+                    geom = rng.choice(cheap)
+                    ghelib.set_geometry(m, HIST_GEOMS[geom])
+                    items.append(f"g{GEOM_INDEX[geom]}"); results.append("g"); log.append(f"geometry {geom}")
+                    continue
+                ft, v, throw = rng.choice("BBSSX"), rand_flow(rng), rng.random() < 0.5
+                fs = rng.choice(FT_STR[ft])
+                res = call_set_design(m, v, fs, throw)
+                items.append(f"{core.rs(v)},{ft},{'T' if throw else 'F'}"); results.append(res); log.append(f"set_design({v!r}, {fs!r}, throw={throw}) -> {res}")
+                exp = ("ValueError" if throw else "1") if ft == "X" else "Exception" if geom is None else "0"
+                if ft != "X" and geom is not None:
+                    want = (v, {"B": "BOREHOLE", "S": "SYSTEM"}[ft], DESIGN_CLASS[geom])
+                if res != exp:
+                    ck.finding(f"history:set_design-outcome:{ft}:{'throw' if throw else 'nothrow'}", f"{'; '.join(log)}: expected {exp}", {"part": "set_design-history", "log": log})
+            d = design_state(m)
+        got = None if d is None else (d["v"], d["ft"], d["cls"])
+        ctx.case(("sm", tuple(items)), len(items) >= 2, {"part": "set_design-history", "log": log, "design": d} if j == 0 else None)
+        ctx.count("history(state machine):calls", len(items)); ctx.count("history(state machine):final design " + ("none" if d is None else d["ft"]))
+        if got != want:
+            ck.finding("history:set_design-last-wins", f"{'; '.join(log)}: the design holds {got}, the last accepted call was {want}", {"part": "set_design-history", "log": log, "design": d})
+        hist_lines.append(";".join(items))
+        hist_impl.append({"results": results, "design": d, "src": f"sm{j}"})
+
+    # =============================================================================== jobs for the pool: (2), (3), (5), (6)
     jobs = []
+    # ---- (6) call histories on ONE manager, then find_design (longest jobs: first)
+    hcases = []
+    hgeoms = list(HIST_GEOMS)
+    if quick:
+        hgeoms = ["NEARSQUARE", hgeoms[1 + ctx.seed % 5]]
+
+    def spec(ft):
+        return round(rng.uniform(0.2, 0.6), 2) if ft == "B" else round(rng.uniform(1.2, 4.8), 1)
+
+    def call(ft, v=0, throw=True):
+        return [spec(ft) if v == 0 else v, ft, rng.choice(FT_STR[ft]), throw]
+
+    for g in hgeoms if only is None else []:
+        pats = [("B>S(N·v)", [call("B"), call("S", None)], True, True),
+                ("S>B", [call("S"), call("B")], False, False)]
+        extra = [("B>B'", [call("B"), call("B")], False, False), ("S>S'", [call("S"), call("S")], rng.random() < 0.5, False),
+                 ("B>S>B", [call("B"), call("S"), call("B")], rng.random() < 0.5, False),
+                 ("B>S", [call("B"), call("S")], True, False),
+                 ("S>X>B>X", [call("S"), call("X", 1.0, False), call("B"), call("X", 2.0, False)], False, False),
+                 ("S>B>S", [call("S"), call("B"), call("S")], False, False)]
+        pats += [rng.choice(extra)] if quick else extra
+        for pat, calls, fb, eq in pats:
+            hcases.append({"id": f"h{len(hcases)}", "geom": g, "pattern": pat, "calls": calls, "find_between": fb, "equiv": eq,
+                           "pipe": "SINGLEUTUBE" if quick else rng.choice(ghelib.PIPE_KINDS[:3]), "phys": ghelib.default_physics(),
+                           "months": 12, "load_scale": round(rng.uniform(0.05, 0.08), 3)})
+    if only == "history":
+        hcases = [rp["case"]]
+    jobs += [("history", c) for c in hcases]
     # ---- (5) whole designs first (longest)
     designs = []
     geoms = list(GEOMS)
@@ -910,6 +1198,28 @@ def run(ctx: core.Ctx):
             ck.dev("design B-vs-S:" + key, r[key], o[key])
             if not close(r[key], o[key], rel, fl):
                 ck.finding(f"design:{d['geom']}:{ft}:equiv:{key}", f"{d['geom']} design ({r['n']} boreholes, H={r['H']:.3f}) under {ft} {v!r}: {key}={r[key]!r}; under {o['ft']} {o['v']!r}: {o[key]!r}", replay)
+
+    # ---------------------------------------------------------------- (6) evaluate
+    for c in hcases:
+        r = byid[c["id"]]
+        if "infra" in r:
+            continue
+        ctx.case(("history", c["geom"], c["pattern"], json.dumps(r["calls"])), True,
+                 {"part": "history", "geom": c["geom"], "calls": r["calls"], "results": r["results"], "design": r["design"],
+                  "last": {k: r["last"].get(k) for k in ("n", "H", "mbhe", "summary_m")}, "s": r["s"]} if c["id"] in ("h0", "h1") else None)
+        ctx.count("history:geom=" + c["geom"]); ctx.count("history:pattern=" + c["pattern"]); ctx.count("history:find_between=" + str(c["find_between"]))
+        ck.check_history(c, r)
+        hist_lines.append(("g%d;" % GEOM_INDEX[c["geom"]]) + ";".join(f"{core.rs(v)},{ft},{'T' if th else 'F'}" for v, ft, _, th in r["calls"]))
+        hist_impl.append({"results": ["g"] + r["results"], "design": r["design"], "src": c["id"]})
+
+    # ---------------------------------------------------------------- (6b) set_design state machine vs the model, many cheap histories
+    hout = drive([f"flow.hist {l}" for l in hist_lines])
+    for i, (l, im) in enumerate(zip(hist_lines, hist_impl)):
+        d = im["design"]
+        ftc = {"BOREHOLE": "B", "SYSTEM": "S"}
+        mine = ",".join(im["results"]) + " " + ("none" if d is None else f"{core.rs(d['v'])} {ftc.get(d['ft'], 'X')} {cls_index.get(d['cls'], -1)}")
+        if hout is not None and hout[i] != mine:
+            ck.disagree("set_design-history-correspondence", {"history": l, "impl": mine, "model": hout[i], "src": im["src"]})
 
     ctx.extra["max_relative_deviation"] = {k: float(f"{v:.3e}") for k, v in sorted(ck.maxdev.items())}
     ctx.programs = 6  # retrieve_flow x2 copies, BaseGHE.__init__, Bisection1D.__init__, initialize_ghe x2 copies (+ find_design end to end)
